@@ -58,3 +58,20 @@ Theorem C12_primitive_total : forall (T : Type) (K : kops T) (p : profile),
   (exists r, primitive_with K p meth s d m n = Ok r) \/ primitive_with K p meth s d m n = Panic PNaN.
 Proof. exact primitive_total. Qed.
 Print Assumptions C12_primitive_total.
+
+(* primitive on the two float carriers of the correspondence check: the order
+   hypotheses hold for IEEE `<`, NaNs included (Proofs/FloatOrder.v) *)
+Require Import KV.Run.F64 KV.Run.F32 KV.Proofs.FloatInstances.
+Theorem C12_primitive_total_f64 : forall (p : profile) (meth : method) s d (m : list PrimFloat.float) (n : N),
+  (n < two32)%N -> wf_shape n (N.of_nat (length m)) ->
+  (exists r, primitive_with (kops_of F64 meth) p meth s d m n = Ok r)
+  \/ primitive_with (kops_of F64 meth) p meth s d m n = Panic PNaN.
+Proof. exact primitive_total_f64. Qed.
+Print Assumptions C12_primitive_total_f64.
+
+Theorem C12_primitive_total_f32 : forall (p : profile) (meth : method) s d (m : list f32) (n : N),
+  (n < two32)%N -> wf_shape n (N.of_nat (length m)) ->
+  (exists r, primitive_with (kops_of F32 meth) p meth s d m n = Ok r)
+  \/ primitive_with (kops_of F32 meth) p meth s d m n = Panic PNaN.
+Proof. exact primitive_total_f32. Qed.
+Print Assumptions C12_primitive_total_f32.
